@@ -28,6 +28,9 @@ THEOREMS = [
     "code_path_eq_sig_path",
     "not_C11_full",
     "not_C11_full_dup_special",
+    "tagCall_agrees_with_pyCall_in_H",
+    "tagCall_eq_pyCall_partial",
+    "positional_after_keyword_refused",
 ]
 
 HOLDER: List[Any] = []
